@@ -7,7 +7,7 @@
 (* A trace of kind "rt" is one format -> parse -> format execution on a    *)
 (* random structure (deeper than the model-checked space):                 *)
 (*   [kind, r, t, p, warn, exc, t2, same, tc,                              *)
-(*    re, rs, ts, ps, warns, sames, fmtsame]                               *)
+(*    re, rs, ts, ps, warns, sames, fmtsame, pm, mixok]                    *)
 (*   r     the structure given to PkgRelation.str (atoms as in PkgRelation,*)
 (*         payload strings interned to ids)                                *)
 (*   t     the produced string as token codes (independent tokenizer of    *)
@@ -39,6 +39,12 @@
 (*     Parse(ts) = ps = rs, no warning; fmtsame: str(r) gave the first     *)
 (*     string again after an edited deep copy of r had been formatted      *)
 (*     (the formatter remembers nothing)                                   *)
+(*     pm / mixok: the first string put into a relation field of a         *)
+(*     Packages / Sources / BuildInfo paragraph (a rotating field, input   *)
+(*     form and key spelling) and read back through its `relations`        *)
+(*     property, the paragraph not modified since construction:            *)
+(*     Parse(t) = pm = r; mixok: no warning, str(pm) == the string, the    *)
+(*     other relation fields are []                                        *)
 (* <<"ACCEPTED", tid>> is printed for a trace that passes 2 .. 6.          *)
 (*                                                                         *)
 (* A trace of kind "probe" (DIAGNOSTIC, a rejection is reported as drift)  *)
@@ -114,6 +120,9 @@ TShare == /\ Tr.kind = "rt"
           /\ Tr.ps = Tr.rs
           /\ Tr.sames
           /\ Tr.fmtsame
+          /\ Parse(Toks(Tr.t)).rel = Tr.pm
+          /\ Tr.pm = Tr.r
+          /\ Tr.mixok
           /\ Advance
           /\ PrintT(<<"ACCEPTED", tid>>)
 
